@@ -24,6 +24,12 @@ Theorem c38_pids : forall l r,
 Proof. exact parse_protocol_ids_spec. Qed.
 Print Assumptions c38_pids.
 
+(* the de-duplicating list form: duplicate free, exactly the ids given *)
+Theorem c38_pids_unique : forall l ae r,
+  parse_protocol_ids_unique l ae = Ok r -> NoDup r /\ forall x, In x r <-> In x l.
+Proof. exact parse_protocol_ids_unique_spec. Qed.
+Print Assumptions c38_pids_unique.
+
 Theorem c38_utf8 : forall s, utf8_valid s = true <-> utf8 s.
 Proof. exact utf8_valid_spec. Qed.
 Print Assumptions c38_utf8.
